@@ -67,6 +67,16 @@ def one_case(rng, tier, wrapped=False):
             x = case.push("union %d %d" % (b, t))
         pool.append(x)
         subterm_obs(rng, case, x)
+    # binary set operations in both operand orders on the same pair (a memo keyed on an unordered pair
+    # must not confuse a \\ b with b \\ a), directly and through the wrappers
+    if len(pool) >= 2 and rng.random() < 0.5:
+        t, u = rng.sample(pool, 2)
+        d1 = case.push("diff %d %d" % (t, u)); d2 = case.push("diff %d %d" % (u, t))
+        d3 = case.push("diff %d %d" % (t, u)); d4 = case.push("diff %d %d" % (u, t))
+        case.obs("same %d %d" % (d1, d3)); case.obs("same %d %d" % (d2, d4))
+        for d in (d1, d2):
+            case.obs("memall %d %d %s" % (d, 3, word(al.letters[:3])))
+        pool += [d1, d2]
     # re-issue constructions after the rest of the history
     idx = 0
     ctor_stmts = []
